@@ -794,3 +794,68 @@ func TestVerifConform_decode(t *testing.T) {
 	}
 	fmt.Printf("CONFORM-STATS test=decode cases=%d\n", cases)
 }
+
+type ccSized struct {
+	A interface{}
+	B map[string]interface{}
+	S string
+	L []int
+	N json.Number
+}
+
+// TestVerifConform_sizes: document sizes around the buffer, padding and node-pool
+// boundaries of the decoders (every length 0..300, and +-70 around 2^9..2^14 bytes; up to
+// 30 000 values in one document), decoded one after the other so that pooled buffers are
+// reused; the result must be encoding/json's whatever was decoded before.
+func TestVerifConform_sizes(t *testing.T) {
+	cases := 0
+	var lens []int
+	for l := 0; l <= 300; l++ {
+		lens = append(lens, l)
+	}
+	for k := 9; k <= 14; k++ {
+		for d := -70; d <= 70; d += 1 {
+			lens = append(lens, 1<<k+d)
+		}
+	}
+	pat := func(l int, alphabet string) string {
+		b := make([]byte, l)
+		for i := range b {
+			b[i] = alphabet[(i*7+l)%len(alphabet)]
+		}
+		return string(b)
+	}
+	tyS := reflect.TypeOf(ccSized{})
+	for _, l := range lens {
+		cases += 3
+		// a document that is one string of l bytes; an array filling l bytes; an object
+		ccCompareUnmarshal(t, fmt.Sprintf("sizes:string-of-%d-bytes", l), "ccSized.S", tyS, `{"S":"`+pat(l, "abcdefghijklmnopqrstuvwxyz012345")+`"}`, false)
+		arr := strings.TrimSuffix(strings.Repeat("1,", l/2), ",")
+		ccCompareUnmarshal(t, fmt.Sprintf("sizes:array-filling-%d-bytes", l), "ccSized.L", tyS, `{"L":[`+arr+`]}`, false)
+		ccCompareUnmarshal(t, fmt.Sprintf("sizes:escaped-string-of-%d-bytes", l), "interface{}", reflect.TypeOf((*interface{})(nil)).Elem(), `["`+pat(l, `ab\"cd\\ef\n`[0:2]+"xyz")+`\u00e9",`+fmt.Sprint(l)+`]`, true)
+	}
+	for _, n := range []int{10, 100, 1000, 4095, 4096, 4097, 30000} {
+		var sb strings.Builder
+		sb.WriteString(`{"A":[`)
+		for i := 0; i < n; i++ {
+			if i > 0 {
+				sb.WriteByte(',')
+			}
+			switch i % 4 {
+			case 0:
+				sb.WriteString(`123456789012345678901234567890`)
+			case 1:
+				sb.WriteString(`{"k":1.50}`)
+			case 2:
+				sb.WriteString(`"s"`)
+			default:
+				sb.WriteString(`[null,true]`)
+			}
+		}
+		sb.WriteString(`],"B":{"x":1.50,"y":[18446744073709551616]},"N":12.50}`)
+		cases += 2
+		ccCompareUnmarshal(t, fmt.Sprintf("sizes:document-of-%d-values", n), "ccSized, UseNumber", tyS, sb.String(), true)
+		ccCompareUnmarshal(t, fmt.Sprintf("sizes:document-of-%d-values", n), "ccSized", tyS, sb.String(), false)
+	}
+	fmt.Printf("CONFORM-STATS test=sizes cases=%d\n", cases)
+}
